@@ -173,6 +173,9 @@ pub fn corpus(prop: &str) -> Vec<MCase> {
             mk(&["q", "x"], SG::Fresh(vec!["x".into()], vec![SG::Eq(v("x"), n(1)), SG::Eq(v("q"), ST::List(vec![v("x"), ST::Bool(true)]))])),
             mk(&["x"], SG::Conj(vec![SG::Closure(vec![SG::Eq(v("x"), n(1)), SG::Op("conde", vec![vec![SG::True], vec![SG::True]])])])),
             mk(&["x", "y"], SG::Conj(vec![SG::Eq(ST::List(vec![]), v("x")), SG::Eq(v("y"), ST::List(vec![ST::List(vec![])]))])),
+            // a written tail that is a list literal denotes the longer list (C14-k)
+            mk(&["x", "y"], SG::Conj(vec![SG::Eq(v("x"), ST::Improper(vec![n(1), n(2)], Box::new(ST::List(vec![])))), SG::Eq(v("y"), ST::Improper(vec![v("x")], Box::new(ST::List(vec![n(3)]))))])),
+            mk(&["x"], SG::Conj(vec![SG::Neq(v("x"), ST::Improper(vec![n(1)], Box::new(ST::List(vec![])))), SG::Op("conde", vec![vec![SG::Eq(v("x"), ST::List(vec![n(1)]))], vec![SG::Eq(v("x"), ST::List(vec![n(1), ST::List(vec![])]))]])])),
         ],
         "C15" => vec![],
         "C12" => {
